@@ -16,6 +16,8 @@ package rlp
 //@ spec rlp_sz(inp, i) = ite(inp[i] <= 0x7f, 1, ite(inp[i] <= 0xb7, int(inp[i] - 0x80), ite(rlp_short(inp, i), int(inp[i] - 0xc0), ite(rlp_nlen(inp, i) == 1, int(inp[i + 1]), int(rlp_lenval(inp, i + 1, rlp_nlen(inp, i)))))))
 
 //@ func ReadSize
+//@   option split=9
+//@   casesplit rlp_nlen(inp, startIndex) == 2 | rlp_nlen(inp, startIndex) == 3 | rlp_nlen(inp, startIndex) == 4 | rlp_nlen(inp, startIndex) == 5 | rlp_nlen(inp, startIndex) == 6 | rlp_nlen(inp, startIndex) == 7 | rlp_nlen(inp, startIndex) == 8
 //@   mode bv
 //@   requires startIndex >= 0
 //@   nofail
